@@ -14,9 +14,9 @@ RULE = ("TLC enumerates every arm list (1..MaxArms arms over the regex pool: cla
         "number, arm and $0..$n) and, with nested scans added, validated step by step against the machine; non-trivial = subject "
         "non-empty")
 
-REGEXES_Q = ["a", "[a-z]+", "/", "(a)|(b)", "x(y)?", "[^/]+", "b$", "é", "(\\w)(\\w)?", "\\b\\w", "a*", "\\b", "(a|ab)(c)?", "中+"]
-REGEXES_T = REGEXES_Q + ["[ab]+/?", "$", "(x)|(xy)", "\\s", "(?:a)(b)?", "[^a]"]
-SUBJECTS = ["", "a", "ab", "a/b", "aab/", "xyx", "é/中", "b a", "abcab", "//", "中中a", "xy.x", "abc"]
+REGEXES_Q = ["^a", "a", "[a-z]+", "/", "(a)|(b)", "x(y)?", "[^/]+", "b$", "é", "(\\w)(\\w)?", "\\b\\w", "a*", "\\b", "(a|ab)(c)?", "中+"]
+REGEXES_T = REGEXES_Q + ["^[a-z]+", "\\bab", "[ab]+/?", "$", "(x)|(xy)", "\\s", "(?:a)(b)?", "[^a]"]
+SUBJECTS = ["", "a", "ba", "ab", "a/b", "aab/", "xyx", "é/中", "b a", "abcab", "//", "中中a", "xy.x", "abc"]
 
 
 def program_for(arms, subj, ngroups, nested=None):
